@@ -372,16 +372,30 @@ def r7(ctx):
     dl = ctx.w.bodies.get("turmoil_net::kernel::udp::deliver")
     if dl:
         PEER = "field:turmoil_net::kernel::socket::Socket::peer"
-        for bb, t in dl.calls(re.compile(r"PartialEq.*::(ne|eq)$")):
-            a0, a1 = Slicer(ctx.w, into_callees=1).atoms(dl, t["args"][0]), Slicer(ctx.w, into_callees=1).atoms(dl, t["args"][1])
+        sites = [(fb, bb, t) for fb in ctx.w.family(dl.id) for bb, t in fb.calls(re.compile(r"PartialEq.*::(ne|eq)$"))]
+        # a closure handed to an Option combinator on Socket::peer (`st.peer.as_ref().is_some_and(|peer| ..)`) sees the peer as its parameter
+        peer_params = set()
+        for fb2 in ctx.w.family(dl.id):
+            for bb2, t2 in fb2.calls(re.compile(r"^std::option::Option::(is_some_and|is_none_or|map|map_or|filter|and_then)$")):
+                if t2["args"] and PEER in Slicer(ctx.w).atoms(fb2, t2["args"][0]):
+                    for cid in closure_args(fb2, t2):
+                        peer_params.add(cid)
+        for fb_, bb, t in sites:
+            a0, a1 = Slicer(ctx.w, into_callees=1).atoms(fb_, t["args"][0]), Slicer(ctx.w, into_callees=1).atoms(fb_, t["args"][1])
+            for cid in peer_params:
+                if fb_.id == cid or fb_.id.startswith(cid):
+                    if any(a.startswith("arg:2:") and a.endswith("@" + cid) for a in a0):
+                        a0 = a0 | {PEER}
+                    if any(a.startswith("arg:2:") and a.endswith("@" + cid) for a in a1):
+                        a1 = a1 | {PEER}
             if PEER not in a0 | a1:
                 continue
             # only an Inet address has a scope id / flow label: a comparison on another arm of a match on the Addr is exempt
             other_arm = False
-            for sbb, m, els, adt, pl in variant_edges(dl, lambda p: True):
+            for sbb, m, els, adt, pl in variant_edges(fb_, lambda p: True):
                 if adt == "turmoil_net::kernel::socket::Addr" and "Inet" in m:
                     for v, e in list(m.items()) + [("else", els)]:
-                        if v != "Inet" and e[1] != m["Inet"][1] and dl.dominated_by_edge(bb, e):
+                        if v != "Inet" and e[1] != m["Inet"][1] and fb_.dominated_by_edge(bb, e):
                             other_arm = True
             if other_arm:
                 continue
